@@ -149,6 +149,24 @@ func runC03(res *lib.Result, tier string, seed int64, args []string) error {
 			}
 		}
 	}
+	// comment spellings that look like the start of a long bracket but are short comments (or long ones directly followed
+	// by code): all these chunks are valid
+	for k, src := range []string{"--[=] see note\nlocal a = 1\n", "--[==== section ====]\nlocal a = 1\n", "local a = 1 --[= x\nreturn a", "--[=", "--[ x ]\nreturn 1", "--]] x\nreturn 1",
+		"return 1 --[==", "--[=[ x ]=]return 1", "--[[ ]]--[[ ]]return 1", "--[==[\n]]\n]=]\n]==] return 1", "local a = 1 --[\nreturn a", "--[=[ --[[ ]=] return 1", "--\nreturn 1", "---[[ x\nreturn 1"} {
+		diff, unmod, nerr, err := compareParse(drv, []byte(src))
+		if err != nil {
+			return err
+		}
+		res.Count(src, true)
+		res.Dist("comment-spelling")
+		caseText := fmt.Sprintf("comment spelling %d %q", k, src)
+		if !unmod && diff != "" {
+			res.AddViolation("impl-vs-model", "parser: "+diff, caseText, nerr == 0)
+		}
+		if nerr > 0 {
+			res.AddViolation("impl-vs-spec", fmt.Sprintf("valid chunk (only a comment spelling is unusual) reported with %d syntax error(s)", nerr), caseText, false)
+		}
+	}
 	for i := 0; i < nProg; i++ {
 		r := root.Fork(uint64(i))
 		g, toks := genProgram(r, 4)
